@@ -257,4 +257,97 @@ def accept (cfg : Cfg) (t : ClassTree) : List Ev :=
       ++ (if cfg.methodsI then acceptMethods cfg 0 t.methods else [])
       ++ [Ev.classEnd]
 
+/-! ## the projection `accept` realises (see `Lemmas/VisitAccept.lean`: `accept cfg t = (accept full t).filterMap (projA cfg)`) -/
+
+def fieldMaskOfA (cfg : Cfg) (i : Nat) : Option Mask :=
+  match cfg.cls with
+  | some _ => if cfg.fieldsI then cfg.field i else none
+  | none => none
+
+def methodCfgOfA (cfg : Cfg) (i : Nat) : Option MethodCfg :=
+  match cfg.cls with
+  | some _ => if cfg.methodsI then cfg.method i else none
+  | none => none
+
+def codeMaskOfA (cfg : Cfg) (i : Nat) : Option Mask :=
+  match methodCfgOfA cfg i with
+  | some mc => if mc.code then mc.codeV else none
+  | none => none
+
+/-- what a visitor configured by `cfg` receives of an event of the full replay -/
+def projA (cfg : Cfg) (e : Ev) : Option Ev :=
+  match e with
+  | .classBegin _ => some e
+  | .cAttr unk k _ => match cfg.cls with | some m => keepIf (m (evBit unk k)) e | none => none
+  | .recBegin _ _ => match cfg.cls with | some m => keepIf (m .record) e | none => none
+  | .rAttr r unk k _ => match recMaskOf cfg r with | some rm => keepIf (rm (evBit unk k)) e | none => none
+  | .recEnd r => keepIf (recMaskOf cfg r).isSome e
+  | .classFlags _ _ | .classEnd => keepIf cfg.cls.isSome e
+  | .fieldBegin _ _ => keepIf (cfg.cls.isSome && cfg.fieldsI) e
+  | .fAttr i unk k _ => match fieldMaskOfA cfg i with | some fm => keepIf (fm (evBit unk k)) e | none => none
+  | .fieldFlags i _ _ | .fieldEnd i => keepIf (fieldMaskOfA cfg i).isSome e
+  | .methodBegin _ _ => keepIf (cfg.cls.isSome && cfg.methodsI) e
+  | .mAttr i unk k _ => match methodCfgOfA cfg i with | some mc => keepIf (mc.mask (evBit unk k)) e | none => none
+  | .methodFlags i _ _ | .methodEnd i => keepIf (methodCfgOfA cfg i).isSome e
+  | .codeBegin i => match methodCfgOfA cfg i with | some mc => keepIf mc.code e | none => none
+  | .codeMaxs i _ | .codeExc i _ | .codeEnd i | .codeInsns i _ _ => keepIf (codeMaskOfA cfg i).isSome e
+  | .kAttr i unk k _ => match codeMaskOfA cfg i with | some cm => keepIf (cm (evBit unk k)) e | none => none
+  | .codeLines i _ => match codeMaskOfA cfg i with | some cm => keepIf (cm .lineNumberTable) e | none => none
+  | .codeLocals i _ => match codeMaskOfA cfg i with | some cm => keepIf (cm .lvt || cm .lvtt) e | none => none
+
+
+/-! ## per item and kind, what an event sequence says (the digest a tree keeps of it) -/
+
+/-- key of an event: owner level, owner index, what -/
+def Ev.key : Ev → Nat × Nat × Nat × Nat
+  | .classBegin _ => (0, 0, 0, 0)
+  | .cAttr u k _ => (0, 0, 1 + u.toNat, k.ctorIdx)
+  | .classFlags _ _ => (0, 0, 3, 0)
+  | .classEnd => (0, 0, 4, 0)
+  | .recBegin r _ => (1, r, 0, 0)
+  | .rAttr r u k _ => (1, r, 1 + u.toNat, k.ctorIdx)
+  | .recEnd r => (1, r, 4, 0)
+  | .fieldBegin i _ => (2, i, 0, 0)
+  | .fAttr i u k _ => (2, i, 1 + u.toNat, k.ctorIdx)
+  | .fieldFlags i _ _ => (2, i, 3, 0)
+  | .fieldEnd i => (2, i, 4, 0)
+  | .methodBegin i _ => (3, i, 0, 0)
+  | .mAttr i u k _ => (3, i, 1 + u.toNat, k.ctorIdx)
+  | .methodFlags i _ _ => (3, i, 3, 0)
+  | .methodEnd i => (3, i, 4, 0)
+  | .codeBegin i => (4, i, 0, 0)
+  | .kAttr i u k _ => (4, i, 1 + u.toNat, k.ctorIdx)
+  | .codeEnd i => (4, i, 4, 0)
+  | .codeMaxs i _ => (4, i, 5, 0)
+  | .codeInsns i _ _ => (4, i, 6, 0)
+  | .codeExc i _ => (4, i, 7, 0)
+  | .codeLines i _ => (4, i, 8, 0)
+  | .codeLocals i _ => (4, i, 9, 0)
+
+/-- the content of an event as a list of items -/
+def Ev.items : Ev → List (List Nat)
+  | .classBegin h | .recBegin _ h | .fieldBegin _ h | .methodBegin _ h | .codeMaxs _ h | .codeExc _ h => [[h]]
+  | .cAttr _ _ p | .rAttr _ _ _ p | .fAttr _ _ _ p | .mAttr _ _ _ p | .kAttr _ _ _ p => p.map (fun x => [x])
+  | .classFlags d s | .fieldFlags _ d s | .methodFlags _ d s => [[d.toNat, s.toNat]]
+  | .classEnd | .recEnd _ | .fieldEnd _ | .methodEnd _ | .codeBegin _ | .codeEnd _ => [[]]
+  | .codeInsns _ fr h => [h :: (fr.getD [])]
+  | .codeLines _ parts => parts
+  | .codeLocals _ parts => parts.map (fun x => x.1.toNat :: x.2)
+
+def digestAdd (d : List ((Nat × Nat × Nat × Nat) × List (List Nat))) (e : Ev) :
+    List ((Nat × Nat × Nat × Nat) × List (List Nat)) :=
+  match d with
+  | [] => [(e.key, e.items)]
+  | (k, v) :: rest => if k = e.key then (k, v ++ e.items) :: rest else (k, v) :: digestAdd rest e
+
+/-- per key the concatenated items, keys with nothing dropped -/
+def digest (evs : List Ev) : List ((Nat × Nat × Nat × Nat) × List (List Nat)) :=
+  (evs.foldl digestAdd []).filter (fun kv => !kv.2.isEmpty)
+
+/-- same digest up to the order in which the keys were first seen -/
+def sameDigest (a b : List Ev) : Bool :=
+  let da := digest a
+  let db := digest b
+  da.length == db.length && da.all (fun kv => db.contains kv)
+
 end Visit
